@@ -51,7 +51,7 @@ def dense_design(basis_sets, orders, disps):
 
 def solver_cells(quick):
     # tri1 3x1x1: a lattice translation of order 3 (T != T^-1), small enough for order 4
-    cells = [("mono_P", (1, 1, 1)), ("tri2_Pm1", (1, 1, 1)), ("tri1", (2, 1, 1)), ("hcp", (1, 1, 1)), ("tri2_P1", (1, 1, 1)), ("tri1", (3, 1, 1))]
+    cells = [("mono_P", (1, 1, 1)), ("tri2_Pm1", (1, 1, 1)), ("tri1", (2, 1, 1)), ("hcp", (1, 1, 1)), ("tri2_P1", (1, 1, 1)), ("tri1", (3, 1, 1)), ("tri2_P1", (3, 1, 1))]
     if not quick:
         cells += [("ortho_C", (1, 1, 1)), ("mono_P", (2, 1, 1)), ("tri1", (2, 2, 1)), ("rhombo2", (1, 1, 1)), ("sheared", (1, 1, 1)), ("mono_C", (1, 1, 1))]
     return cells
@@ -68,9 +68,11 @@ class Prepared:
         self.N = len(self.sc["numbers"])
         self.cutoff = cutoff
         o = Symfc(self.atoms, cutoff=None if cutoff is None else dict(cutoff))
-        o.compute_basis_set(max_order=4)
+        # order 4 only for cells with fewer than 6 atoms (the order-4 basis of a 6-atom P1 cell has > 1000 vectors)
+        o.compute_basis_set(max_order=4 if self.N < 6 else 3)
         self.basis = dict(o.basis_set)
         self.nb = {k: b.basis_set.shape[1] for k, b in self.basis.items()}
+        self.nb.setdefault(4, 0)
         self.n_lp = self.basis[2].translation_permutations.shape[0]
         self.p2s = np.asarray(self.basis[2].p2s_map)
         self.trans_perms = np.asarray(self.basis[2].translation_permutations)
